@@ -281,7 +281,13 @@ func (c *scriptedChild) ServeNostr(ctx context.Context, send chan<- mocrelay.Ser
 				if c.r.Intn(5) == 0 { // counts far apart: the maximum must not be computed by subtraction
 					n = []uint64{1 << 62, 1<<63 + 10, math.MaxUint64}[c.r.Intn(3)]
 				}
-				if !c.emit(ctx, send, mocrelay.NewServerCountMsg(m.SubscriptionID, n, nil)) {
+				// the approximate flag (absent / true / false) is independent of the count: the merged reply carries the largest count whatever the flags say
+				var approx *bool
+				if k := c.r.Intn(3); k > 0 {
+					b := k == 1
+					approx = &b
+				}
+				if !c.emit(ctx, send, mocrelay.NewServerCountMsg(m.SubscriptionID, n, approx)) {
 					return ctx.Err()
 				}
 				if m.SubscriptionID != sentinelSub && c.r.Intn(6) == 0 {
@@ -309,6 +315,13 @@ func runMergeScenario(run *core.Run, seed int64, nChildren int, what string) (tv
 		e := abs.Event{ID: fmt.Sprintf("m%d", i+1), Author: []string{"a", "b"}[r.Intn(2)], Kind: int64(1 + r.Intn(2)), TS: int64(1 + r.Intn(4))}
 		if i == 3 && r.Intn(3) == 0 {
 			e.TS = -1000000 // the oldest possible created_at
+		}
+		// tags: one event carries two matching values of one tag name (and nothing of the other name), one carries both names
+		switch i {
+		case 0:
+			e.Tags = []abs.Tag{{Name: "t", Val: "x", N: 2}, {Name: "t", Val: []string{"x", "y"}[r.Intn(2)], N: 2}}
+		case 1:
+			e.Tags = []abs.Tag{{Name: "t", Val: "x", N: 2}, {Name: "g", Val: "q", N: 2}}
 		}
 		pool = append(pool, e)
 		evOf[e.ID] = e
@@ -425,6 +438,9 @@ func runMergeScenario(run *core.Run, seed int64, nChildren int, what string) (tv
 		{{Limit: abs.OptInt{P: true, V: 2}, Authors: abs.StrSet{P: true, S: []string{"a", "b"}}}},
 		{{Kinds: abs.IntSet{P: true, S: []int64{2}}}, {Since: abs.OptInt{P: true, V: 3}}},
 		{{Limit: abs.OptInt{P: true, V: 0}}},
+		// two tag conditions: both must hold, however many tags of one name the event carries
+		{{Tags: map[string][]string{"t": {"x", "y"}, "g": {"q"}}}},
+		{{Tags: map[string][]string{"t": {"x"}}}, {Tags: map[string][]string{"g": {"q", "r"}, "t": {"y"}}}},
 	}
 	nsub := 0
 	closed := map[string]bool{}
